@@ -146,7 +146,7 @@ def norm_exc(e: BaseException) -> str:
 # run generation
 # --------------------------------------------------------------------------------------------
 
-BYTE_FAULTS = ["truncate", "flip_structural", "flip_any", "zero_block", "duplicate", "empty", "bom", "toplevel", "trailing", "nan", "dupkey"]
+BYTE_FAULTS = ["truncate", "flip_structural", "flip_any", "zero_block", "duplicate", "empty", "bom", "toplevel", "trailing", "nan", "dupkey", "nesting_bomb"]
 
 
 def gen_history(run_seed: int, tier: str) -> Dict[str, Any]:
@@ -308,9 +308,9 @@ def gen_gate_tasks(seed: int, tier: str) -> List[Dict[str, Any]]:
     r = core.rng(seed, "gate-classes")
     for ci, cls in enumerate(classes):
         if tier == "quick":
-            combos = [(r.choice(gw.PLUGINS), "single"), (r.choice(gw.PLUGINS), "second"), (r.choice(gw.PLUGINS), r.choice(["first", "first", "middle"]))]
+            combos = [(r.choice(gw.PLUGINS), "single"), (r.choice(gw.PLUGINS), "second"), (r.choice(gw.PLUGINS), r.choice(["first", "first", "middle", "twice"]))]
         else:
-            combos = [(p, pos) for p in gw.PLUGINS for pos in ("single", "second", "first", "middle")]
+            combos = [(p, pos) for p in gw.PLUGINS for pos in ("single", "second", "first", "middle", "twice")]
         for p, pos in combos:
             rs = core.derive(seed, PROP, "gate", ci, p, pos)
             tasks.append({"kind": "gate_class", "run_seed": rs, "cls": list(cls), "plugin": p, "position": pos,
@@ -368,6 +368,10 @@ def byte_fault(data: bytes, kind: str, r: random.Random) -> bytes:
         return b""
     if kind == "bom":
         return b"\xef\xbb\xbf" + data if r.random() < 0.5 else data.decode("utf-8").encode("utf-16")
+    if kind == "nesting_bomb":
+        # valid JSON syntax nested far beyond any recursion limit
+        n_ = r.choice([2000, 100000])
+        return b"[" * n_ + b"]" * n_ if r.random() < 0.5 else b'{"requests":' * n_ + b"1" + b"}" * n_
     if kind == "toplevel":
         # valid JSON, but not a metamodel object at all
         return r.choice([b"[]", b"null", b'"x"', b"0", b"true", b"{}", b"[" + data + b"]", b'{"metaModel": ' + data + b"}"])
@@ -483,14 +487,29 @@ def run_gate_class(t: Dict[str, Any]) -> Dict[str, Any]:
             (tree / "generator" / "lsp.json").write_bytes(models.dumps(bad))
             files = None
             probes["default_model_bad"] += 1
-        elif t["position"] in ("second", "first", "middle"):
+        elif t["position"] in ("second", "first", "middle", "twice"):
             good = _sub_for_gate(core.derive(t["run_seed"], "good") % 2**40)
             good2 = _sub_for_gate(core.derive(t["run_seed"], "good2") % 2**40)
-            order = {"second": [good, bad], "first": [bad, good], "middle": [good, bad, good2]}[t["position"]]
+            order = {"second": [good, bad], "first": [bad, good], "middle": [good, bad, good2], "twice": [bad]}[t["position"]]
             files = w.write_models("m", [models.dumps(x) for x in order])
+            if t["position"] == "twice":
+                files = files * 2  # the same (bad) path named twice
             probes["second_file_bad" if t["position"] == "second" else "first_file_bad"] += 1
         else:
             files = w.write_models("m", [models.dumps(bad)])
+        if files and core.derive(t["run_seed"], "spell") % 4 == 0:
+            # the model file reached through a symbolic link / a path with `..`
+            spelled = []
+            for i_, f_ in enumerate(files):
+                if i_ % 2 == 0:
+                    lnk = os.path.join(os.path.dirname(f_), f"link-{i_}.json")
+                    if not os.path.lexists(lnk):
+                        os.symlink(f_, lnk)
+                    spelled.append(lnk)
+                else:
+                    spelled.append(os.path.join(os.path.dirname(f_), "..", os.path.basename(os.path.dirname(f_)), os.path.basename(f_)))
+            files = spelled
+            probes["model_path_symlink_or_dotdot"] += 1
         viol = gate_check(w, t["plugin"], files, t["prepopulate"], t["run_seed"], "schema-invalid", probes, repo=tree)
     finally:
         w.destroy()
@@ -533,7 +552,7 @@ def _probes() -> Dict[str, int]:
     return {k: 0 for k in ["loads", "readbacks", "merges", "merge_files", "compares", "node_compares", "equal_pairs_judged", "unequal_pairs_judged",
                            "annotation_only_pair", "alias_compared", "flip_kept_valid", "fault_schema_invalid", "fault_not_json", "gate_invocations",
                            "gate_prepopulated", "second_file_bad", "violation_class_fired", "edits_applied", "edits_with_rare_kinds", "load_rejected_valid",
-                           "plugin_probe_unavailable", "reloads_same_objects", "first_file_bad", "default_model_bad", "truncation_points", "cli_merge_runs", "multi_violation_docs", "merged_vs_first_compares", "cross_class_compares", "twin_nodes_built", "merge_with_duplicates", "merge_with_empty_section", "merge_same_object_twice", "unreadable_enoent", "unreadable_eio", "unreadable_directory", "metadata_first_file"]}
+                           "plugin_probe_unavailable", "reloads_same_objects", "first_file_bad", "default_model_bad", "truncation_points", "cli_merge_runs", "multi_violation_docs", "merged_vs_first_compares", "model_path_symlink_or_dotdot", "cross_class_compares", "twin_nodes_built", "merge_with_duplicates", "merge_with_empty_section", "merge_same_object_twice", "unreadable_enoent", "unreadable_eio", "unreadable_directory", "metadata_first_file"]}
 
 
 def _result(t: Dict[str, Any], viol: List[Dict[str, str]], probes: Dict[str, int], skipped: Optional[str] = None, evlog: Any = None) -> Dict[str, Any]:
@@ -1114,7 +1133,7 @@ def main(argv: List[str]) -> int:
         "run_kinds": kinds,
         "violation_classes_total": classes_total,
         "violation_classes_fired": classes_fired,
-        "faults_fired": {k: probes.get(k, 0) for k in ["fault_not_json", "fault_schema_invalid", "flip_kept_valid", "second_file_bad", "first_file_bad", "default_model_bad", "truncation_points", "cli_merge_runs", "multi_violation_docs", "merged_vs_first_compares", "cross_class_compares", "twin_nodes_built", "merge_with_duplicates", "merge_with_empty_section", "merge_same_object_twice", "violation_class_fired",
+        "faults_fired": {k: probes.get(k, 0) for k in ["fault_not_json", "fault_schema_invalid", "flip_kept_valid", "second_file_bad", "first_file_bad", "default_model_bad", "truncation_points", "cli_merge_runs", "multi_violation_docs", "merged_vs_first_compares", "model_path_symlink_or_dotdot", "cross_class_compares", "twin_nodes_built", "merge_with_duplicates", "merge_with_empty_section", "merge_same_object_twice", "violation_class_fired",
                                                         "unreadable_enoent", "unreadable_eio", "unreadable_directory", "gate_prepopulated"]},
         "probes": probes,
         "skipped": skipped,
